@@ -4,7 +4,8 @@
    OPanic), at the current commit: the classes 1-4 found by this check (null on a nullable Json
    field, empty verifying key, keyword / digit-first aliases, unclosed Ifnull) were repaired by
    8ac9d00, b4e6381, 601cdc3, and classes 9-10 (ConnectionInfo frame length, dates beyond the
-   calendar) by feffa39, 8b3434e: their theorems hold at full strength; classes 5-8 stay open.
+   calendar, peer user row without `enabled`) by feffa39, 8b3434e, 86aa554: their theorems hold at
+   full strength; classes 5-8 stay open.
    Partial: a Gallina model cannot exhibit a panic or a dead thread of code it does not mirror;
    that part of the property is observed by the correspondence harness (panic hook, probe after
    every input), not proved — see C14_full. *)
@@ -208,17 +209,20 @@ Theorem C14_frame_and_date_witnesses :
 Proof. exact frame_witnesses_w. Qed.
 Print Assumptions C14_frame_and_date_witnesses.
 
-(* (8) room definitions received from a peer with one member of a sys.* row replaced: the next
-   start of the instance succeeds except in exactly one case, a user row without `enabled`
-   (class 11: accepted, stored, and load_user_from_json unwraps the rendered default) *)
-Theorem C14_room_definition_restart_outside_known : forall m v,
-  restart_succeeds m v = false <-> (m = MUserEnabled /\ v = JMissing).
-Proof. exact room_def_restart_outside_known. Qed.
-Print Assumptions C14_room_definition_restart_outside_known.
+(* (8) room definitions received from a peer with one member of a sys.* row replaced: every row
+   the parse rules accept is one the loader of the next start reads, so the instance starts again
+   in every case (the user row without `enabled`, former class 11, included since 86aa554) *)
+Theorem C14_room_definition_restart_holds : forall m v, restart_succeeds m v = true.
+Proof. exact room_def_restart_holds. Qed.
+Print Assumptions C14_room_definition_restart_holds.
+
+Theorem C14_accepted_rows_load_holds : forall m v, room_row_accepted m v = true -> loader_reads m v = true.
+Proof. exact accepted_rows_load. Qed.
+Print Assumptions C14_accepted_rows_load_holds.
 
 Theorem C14_room_definition_witnesses :
-  run_C14 (CRoomDef MUserEnabled JMissing) = [0; 1; 0] /\ known_C14 (CRoomDef MUserEnabled JMissing) = [11] /\
-  spec_C14 (CRoomDef MUserEnabled JMissing) [0; 1; 0] = false /\
+  run_C14 (CRoomDef MUserEnabled JMissing) = [0; 1; 1] /\ known_C14 (CRoomDef MUserEnabled JMissing) = [] /\
+  spec_C14 (CRoomDef MUserEnabled JMissing) [0; 1; 1] = true /\
   run_C14 (CRoomDef MUserEnabled JNull) = [1; 1; 1] /\ run_C14 (CRoomDef MUserEnabled JBoolean) = [0; 1; 1] /\
   run_C14 (CRoomDef MRightSelf JNumber) = [1; 1; 1] /\ run_C14 (CRoomDef MAuthName JNull) = [0; 1; 1].
 Proof. exact room_def_witnesses_w. Qed.
